@@ -503,4 +503,9 @@ def corpus():
                     [("e0", "alg", ("add", ("mul", ("var", 1, ("i", -1)), ("var", 0, ("w",))), ("var", 1, ("s", None, -1))), None),
                      ("e1", "alg", ("sub", ("powi", ("var", 1, ("s", -2, None)), 2), ("mul", ("par", 0, ("w",)), ("var", 1, ("i", -2)))), None),
                      ("e2", "alg", ("add", ("var", 1, ("i", -3)), ("var", 0, ("i", -1))), None)]))
+    # a size-one variable times a vector parameter plus its square (second derivative scalar, first derivative vector)
+    C.append(GModel("AE", [("a", [0.7], None), ("x", [1.1, 0.4], None)], [("p", "plain", dict(value=[2.0, 3.0]))],
+                    [("e0", "alg", ("add", ("add", ("powi", ("var", 0, ("w",)), 2), ("mul", ("var", 0, ("w",)), ("par", 0, ("w",)))),
+                                    ("powi", ("var", 1, ("w",)), 2)), None),
+                     ("e1", "alg", ("add", ("sub", ("var", 0, ("w",)), ("num", 1.0)), ("var", 1, ("i", 0))), None)]))
     return C
